@@ -8,7 +8,7 @@ incremental test builds; remove it with `git -C /repo worktree remove --force /t
 Writes /verif/seeded/<seed-name>/{patch.diff,demo*,run_demo.sh,README.md,meta.json}."""
 import json, os, shutil, subprocess, sys, time, glob
 pid, name, src = sys.argv[1], sys.argv[2], sys.argv[3]
-WT = "/tmp/wt-seedconfirm"
+WT = os.environ.get("CONFIRM_WT", "/tmp/wt-seedconfirm")
 def sh(cmd, **kw):
     return subprocess.run(cmd, shell=True, capture_output=True, text=True, **kw)
 if not os.path.isdir(WT):
